@@ -232,6 +232,12 @@ fn real_main() {
             break;
         }
     }
+    if ctx.violations() == 0 && !ctx.thorough() && !cfg!(debug_assertions) {
+        // quick tier, release build only: two patterns at 10^6 (a priority source with a short period or few
+        // distinct values only shows at this scale)
+        let big = vec![Pat { kind: 0, n: 1_000_000, seed: 42, chunk: 0 }, Pat { kind: 1, n: 600_000, seed: 7, chunk: 0 }, Pat { kind: 8, n: 500_000, seed: 9, chunk: 0 }];
+        ctx.exhaustive("patterns-n1e6-release", "treap-pattern", "sorted appends at 10^6, front insertion at 6*10^5, ordered split_by insertion at 5*10^5", false, big, run_pat);
+    }
     if ctx.violations() == 0 {
         // small histories with library priorities: heap order after every operation
         ctx.prop("small-histories-heap", "treap-history", ctx.n(8_000, 200_000), c03::case(60), c03::run_case_heap_only);
